@@ -1,6 +1,7 @@
 package main
 
 import (
+	"bytes"
 	"fmt"
 	"net/http"
 	"net/http/httptest"
@@ -113,7 +114,7 @@ func c19Values(f reflect.StructField) []any {
 func c19(env *Env, rep *Report) {
 	rep.Rule = "(1) builder: every single-field deviation and every pair of deviations of the ~60 settings from their defaults over per-type domains (bool: both; int: {0,1,-1,2^31-1,3}; string: {empty, x, a:b:c, non-ASCII, #x, false, i:1, 4000 chars, inner blank, a Windows command line}) (quick: pairs restricted to every 5th combination): String() must be CRLF-terminated name:type:value lines without duplicates (independent grammar), and NewBuilderFromFile(write(String())).Settings must equal the builder's settings; " +
 		"(2) templates: each single-field deviation written as a template and served through the real web.Handler.HandleDownload: known template settings that differ from the defaults are kept unless gateway-controlled, forced settings carry the gateway's values, and the served file round-trips; " +
-		"(3) parser: every string of length <= 5 (thorough: 6) over {a : i s b blank CR LF # 1 -} against a reference parser (accept/reject and resulting map), lines of 4095/4096/4097 bytes; (4) parse(marshal(m)) == m for maps of 1..3 settings of ints and strings. distinct_nontrivial = distinct cases evaluated."
+		"(3) parser: every string of length <= 5 (thorough: 6) over {a : i s b blank CR LF # 1 -} against a reference parser (accept/reject and resulting map), lines of 4095/4096/4097 bytes; (4) parse(marshal(m)) == m, and the output of the previous call is unchanged after the next one for maps of 1..3 settings of ints and strings. distinct_nontrivial = distinct cases evaluated."
 	rep.Assumptions = append(rep.Assumptions, "string values free of CR/LF and of leading/trailing blanks, setting names free of ':' (the property's domain)", "temporary files live in the check's build directory")
 	dir := c19TmpDir()
 	defer os.RemoveAll(dir)
@@ -285,9 +286,13 @@ func c19(env *Env, rep *Report) {
 		cmp("k:s:v\r\n" + strings.Repeat("x", l) + "\r\n")
 	}
 	rep.outcome("parser")
-	// (4) parse(marshal(m)) == m
+	// (4) parse(marshal(m)) == m, and the output of the previous call is unchanged after the next one
 	keys := []string{"a", "full address", "k2", "screen mode id"}
 	vals := []any{0, 1, -1, 2147483647, -2147483648, "", "x", "a:b:c", "ünï 漢", "#x", "1", "i:1", strings.Repeat("z", 4000)}
+	// results handed out earlier stay what they were: the previous output is kept (with a private copy of its
+	// bytes taken at once) and examined again after the next call
+	var prevOut, prevCopy []byte
+	var prevMap map[string]any
 	check := func(m map[string]any) {
 		rep.add("executions", 1)
 		b, err := p.Marshal(m)
@@ -295,6 +300,14 @@ func c19(env *Env, rep *Report) {
 			rep.violate("C19/marshal-failed", fmt.Sprint(m), map[string]any{"noreplay": true})
 			return
 		}
+		if prevOut != nil {
+			if !bytes.Equal(prevOut, prevCopy) {
+				rep.violate("C19/earlier-marshal-output-changed-by-a-later-call", fmt.Sprintf("output for %.100v read %.100q when it was returned and %.100q after marshalling %.100v", prevMap, prevCopy, prevOut, m), map[string]any{"noreplay": true})
+			} else if back, err := p.Unmarshal(prevOut); err != nil || !reflect.DeepEqual(back, prevMap) {
+				rep.violate("C19/earlier-marshal-output-changed-by-a-later-call", fmt.Sprintf("output for %.100v parses to %.100v (%v) after marshalling %.100v", prevMap, back, err, m), map[string]any{"noreplay": true})
+			}
+		}
+		prevOut, prevCopy, prevMap = b, append([]byte{}, b...), m
 		if _, why := refRdpLines(string(b)); why != "" {
 			rep.violate("C19/marshal-output-not-well-formed", why, map[string]any{"noreplay": true})
 		}
